@@ -549,6 +549,17 @@ check_averaging(Ctx& x, AcqRec& a, bool complete)
 
 // ---- client operations (run in the client fiber) -----------------------------------------------------
 
+// A stop / abort that never returns (or a dead-locked runtime) is C07's subject, C09's after a device
+// fault -- and in runs made for C08 it counts for C08: the devices are then never stopped and never
+// closed, and the runtime never reports Armed.
+const char*
+hang_prop(Ctx& x)
+{
+    if (vh_focus && !strcmp(vh_focus, "C08"))
+        return "C08";
+    return x.any_fault_in_case ? "C09" : "C07";
+}
+
 bool
 uses_real_camera(const StreamCfg cfg[2])
 {
@@ -1833,7 +1844,7 @@ vh_run(const VhTok* tape, size_t n, VhReport* rep)
                     snprintf(b, sizeof b, "%s#%d:%s ", vsim::info(f).name, f, vsim::state_name(vsim::info(f).st));
                     who += b;
                 }
-            x.c.fail(x.any_fault_in_case ? "C09" : "C07", "stop-or-abort-hangs", x.any_fault_in_case ? "after-device-fault" : "no-fault",
+            x.c.fail(hang_prop(x), "stop-or-abort-hangs", x.any_fault_in_case ? "after-device-fault" : "no-fault",
                      "the client has been inside acquire_stop/acquire_abort for 2 s of virtual time without a single device call (%s): it never returns", who.c_str());
             return true;
         }
@@ -1847,7 +1858,7 @@ vh_run(const VhTok* tape, size_t n, VhReport* rep)
     if (!x.c.ended) {
         if (rr == vsim::RUN_DEADLOCK || rr == vsim::RUN_QUIET) {
             const vsim::Info& bi = vsim::info(blocked >= 0 ? blocked : 0);
-            const char* prop = x.any_fault_in_case ? "C09" : "C07";
+            const char* prop = hang_prop(x);
             // who is stuck?
             std::string who;
             for (int f = 0; f < vsim::nfibers(); ++f) {
